@@ -22,6 +22,9 @@ def main():
     unsigned = fam[1] in 'UQ'
     one = 2 if (weighted and float_vals) else 1
     kinds = {'Set': SE, 'TreeSet': TS, 'Bucket': BU, 'BTree': BT}
+    ghost = bool(job.get('ghost'))
+    subclassed = bool(job.get('subclassed'))
+    subkinds = {n: type('Sub' + n, (c,), {}) for n, c in kinds.items()}
 
     def val(v):
         """model value -> real value"""
@@ -69,12 +72,29 @@ def main():
                 return (k for k in ks)
             return {k: None for k in ks}.keys() if len(set(map(repr, ks))) == len(ks) else ks
         cls = kinds[o['kind']]
+        if subclassed and (form + len(o['items'])) % 2:
+            cls = subkinds[o['kind']]       # an instance of a user subclass is a container of that kind like any other
         if o['kind'] in ('Set', 'TreeSet'):
             return cls([emb.key(k) for k, _ in o['items']])
         c = cls()
         for k, v in o['items']:
             c[emb.key(k)] = val(v)
         return c
+
+    jars = []
+
+    def ghostify(*objs):
+        """C05: the operands live in the data manager, stored and evicted - every node a ghost when the call starts"""
+        if not ghost:
+            return
+        from harness import minijar
+        jar = minijar.Jar(minijar.Store())
+        for o in objs:
+            if o is not None and hasattr(o, '_p_jar') and o._p_jar is None:
+                jar.add(o)
+        jar.commit()
+        jar.cache.minimize()
+        jars[:] = [jar]         # (kept alive during the call)
 
     def contents(x, o):
         """current contents of a real operand, in model form (None for consumed iterators)"""
@@ -95,7 +115,7 @@ def main():
             return ['same', 1]
         name = type(res).__name__
         for kd, cls in kinds.items():
-            if type(res) is cls:
+            if type(res) is cls or (subclassed and type(res) is subkinds[kd]):
                 name = kd
         if name in ('Set', 'TreeSet'):
             return [name, [[emb.rk(k), 1] for k in res]]
@@ -151,13 +171,14 @@ def main():
             for name, f in wfn.items():
                 w1, w2 = rng.choice(wset), rng.choice(wset)
                 ao, bo = make(a), make(b)
+                ghostify(ao, bo)
                 try:
                     counts['calls'] += 1
                     wt, res = f(ao, bo, wreal(w1), wreal(w2))
                     if res is None or res is ao or res is bo:
                         got = [wun(wt)] + (['same', 2] if (res is bo and res is not ao) or ao is None else ['same', 1])
                     else:
-                        kd = [k for k, c in kinds.items() if type(res) is c]
+                        kd = [k for k, c in kinds.items() if type(res) is c or (subclassed and type(res) is subkinds[k])]
                         kd = kd[0] if kd else 'kind?' + type(res).__name__
                         if kd == 'Set':
                             got = [wun(wt), kd, [[emb.rk(k), 1] for k in res]]
@@ -183,6 +204,7 @@ def main():
             ao, bo = make(a, n_), make(b, n_ + 1)
             if name in ('ror', 'rand', 'rsub', 'rxor') and type(ao).__name__ == 'dict_keys':
                 continue        # (a dict view has set operators of its own)
+            ghostify(ao, bo)
             try:
                 counts['calls'] += 1
                 got = render(f(ao, bo), ao, bo, name)
@@ -192,6 +214,7 @@ def main():
                      ub=contents(bo, b) in (None, b['items'])))
         if a['kind'] in ('Set', 'TreeSet') and b['kind'] != 'none':
             ao, bo = make(a, n_), make(b, n_ + 3)
+            ghostify(ao, bo)
             try:
                 counts['calls'] += 1
                 got = ['bool', 1 if ao.isdisjoint(bo) else 0]
@@ -200,6 +223,7 @@ def main():
             add(dict(fn='isdisjoint', a=a, b=b, got=got, ua=contents(ao, a) == a['items'], ub=contents(bo, b) in (None, b['items'])))
             for name in ('ior', 'iand', 'isub', 'ixor'):
                 ao, bo = make(a, n_), make(b, n_ + 2)
+                ghostify(ao, bo)
                 try:
                     counts['calls'] += 1
                     x = ao
